@@ -39,6 +39,7 @@ func c16(r *core.Run) {
 	r.Rule("D3", "mock store: the resource map is accessed only by transaction methods (alive only between Read/Write and Close) and the configuration helper Add", 2)
 	r.Rule("A2", "group confinement (premise of 'state touched only from a group's callbacks needs no user synchronisation'): the lookup of a group's pending work item and the register/append that follows are one critical section (same obligations as C01.A2); otherwise two producers create two work items for one group, two workers run the group's callbacks at once and handler state races", 4)
 	r.Rule("O1", "request objects own their memory: in every function that builds a request object (Request, queryRequest, getRequest) each store into a field of the request or of its resource part goes to memory allocated in that function - not through a pointer into a longer-lived object (the query event, the service); requests of one query event or Parallel resource are processed concurrently, so a write through such a pointer is an unsynchronised write to shared state", 3)
+	r.Rule("O2", "lookups share no scratch state (shared with C06.R6): no function reachable from Mux.GetHandler writes Mux / node / handler state or appends into a slice or array held there; lookups run on the listener goroutine and on every goroutine calling With / Resource or emitting store changes", 1)
 	r.Rule("V1", "no shared loop variable: a closure created in a loop and handed on does not capture a variable the loop re-assigns", 1)
 
 	a, e := queueEngine(r, "D1")
@@ -343,6 +344,9 @@ func c16(r *core.Run) {
 		}
 		r.Analysed["request_field_stores_checked"] = nChecked
 	}
+
+	// ---- O2 (shared with C06) ------------------------------------------------
+	c06PureLookup(r, "O2")
 
 	// ---- V1 --------------------------------------------------------------
 	nLoopCl := 0
